@@ -100,18 +100,23 @@ func (d *Driver) sample() {
 				// judged only when one Get is shorter than half the 500 ms check period: otherwise the
 				// watch loop can be busy with back-to-back periodic checks and the moment it drains
 				// its event channel depends on select fairness, for which the statement gives no number
-				if cur && in.running && !isL && in.watchOK && !d.faultyFor(in.idx) && p.Store.Req[1]+p.Store.Resp[1] < 250*time.Millisecond {
+				rf, rfEnd := d.readFaultFor(in.idx)
+				if cur && in.running && !isL && in.watchOK && !rf && p.Store.Req[1]+p.Store.Resp[1] < 250*time.Millisecond {
 					if ow := d.owners[in.cfg.Group]; ow != nil && ow.id != in.cfg.ID {
 						t0 := ow.since
 						if in.watchOKAt > t0 {
 							t0 = in.watchOKAt
 						}
-						if d.lastFaultEnd > t0 {
-							t0 = d.lastFaultEnd
+						if rfEnd > t0 {
+							t0 = rfEnd
 						}
 						// a follower that has just stepped down learns the new owner like any other
 						if in.fellAt > t0 {
 							t0 = in.fellAt
+						}
+						// so does one that has just been told something outdated by a late notification
+						if in.lastStaleEvtAt > t0 {
+							t0 = in.lastStaleEvtAt
 						}
 						// The statement gives no number for "converges"; the check allows both ways a
 						// follower can learn the owner to complete: a periodic check (500 ms + one Get)
@@ -157,6 +162,31 @@ func (d *Driver) faultyFor(inst int) bool {
 		}
 	}
 	return false
+}
+
+// readFaultFor: is (or was until a moment ago) a fault active that can make the instance's reads
+// fail or crawl? Returns also the end of the latest such fault window that is over. Watch-delivery
+// faults and faults on other operation kinds do not count: a follower learns the record's owner
+// from its periodic read as well.
+func (d *Driver) readFaultFor(inst int) (active bool, lastEnd time.Duration) {
+	now := d.lastNow
+	for i := range d.plan.Faults {
+		f := &d.plan.Faults[i]
+		switch f.Kind {
+		case FWatchDrop, FWatchHold, FWatchDup, FWatchFail, FWatchClose:
+			continue
+		}
+		if f.OpN > 0 || f.Inst >= 0 && f.Inst != inst || f.Op != "" && f.Op != "get" {
+			continue
+		}
+		end := f.To + d.clientTimeout() + time.Second
+		if now >= f.From && (f.To == 0 || now < end) {
+			active = true
+		} else if f.To > 0 && now >= end && end > lastEnd {
+			lastEnd = end
+		}
+	}
+	return
 }
 
 // ---------- C05 ----------
